@@ -136,6 +136,19 @@ def displayM {τ : Type} (typeStr : τ → Str) (p : GPurl τ) : M Str :=
   | .ok s => .ok s
   | .error _ => .error "PANIC"
 
+/-! ### formatting into a sink of limited capacity, then normally -/
+
+def opFmtlim {τ ε : Type} (io : ShapeIO τ ε) (cap : Nat) (s : Str) : M String := do
+  let r ← liftRes (io.parse s)
+  let o := "p=" ++ showRes io.typeStr io.full r
+  match r with
+  | .error _ => return o
+  | .ok p =>
+    let s1 ← displayM io.typeStr p
+    -- the canonical string is ASCII: the limited sink fails exactly when the whole does not fit; nothing of a
+    -- failed write may show in the next string
+    return o ++ s!" fmt={if s1.length ≤ cap then "OK" else "ERR"} s={hS s1} pad=T"
+
 /-! ### parse op -/
 
 def opParse {τ ε : Type} (io : ShapeIO τ ε) (s : Str) : M String := do
@@ -218,8 +231,10 @@ def parseQOp (a : List String) : M QOp := do
   | "idx" => return .index (← unh (← argAt a 1))
   | "idxmut" => return .indexMutSet (← unh (← argAt a 1)) (← unh (← argAt a 2))
   | "tfi" => return .tryFromIter (← pairArgs (a.drop 1))
+  | "cf" => return .cloneFrom (← pairArgs (a.drop 1))
   | "eqk" => return .eqKey (← natArg a 1) (← unh (← argAt a 2))
   | "cmpk" => return .cmpKey (← natArg a 1) (← unh (← argAt a 2))
+  | "tgck" => return .tryGetChecksum
   | "gett" => return .getTyped (← natArg a 1)
   | "hast" => return .hasTyped (← natArg a 1)
   | "inst" => return .insertTyped (← natArg a 1) (← unh (← argAt a 2))
@@ -235,6 +250,7 @@ def kind (b : Bool) : String := if b then "O" else "V"
 def showQOut (op : QOp) : QOut → String
   | .unit => match op with
     | .tryFromIter _ => "OK"
+    | .cloneFrom _ => "OK"
     | _ => "."
   | .str s => match op with
     | .insert .. => "OK:" ++ hS s
@@ -705,6 +721,31 @@ def opSerde (rest : List String) : M String := do
       | .error (.panic _) => throw "PANIC"
       | .error (.err _) => return "ERR:serde"
     | _ => return "NA"
+  | "dev" =>
+    -- one value of serde's data model, not through JSON
+    let kind ← argAt rest 2
+    let payload ← unh (← argAt rest 3)
+    let v : Json ← match kind with
+      | "str" | "string" | "bstr" | "cow" => pure (Json.str payload)
+      | "bytes" | "bbytes" => pure (Json.bytes payload)
+      | "char" => pure (Json.char (payload.headD 'p'))
+      | "u64" | "i64" | "f64" => pure Json.num
+      | "bool" => pure (Json.bool payload.isEmpty)
+      | "unit" => pure Json.null
+      | "seq" => pure Json.arr
+      | k => throw s!"BADREQ bad value kind {k}"
+    match shape with
+    | "S" =>
+      match de (parseS U) v with
+      | .ok p => return "OK:" ++ showPurl id p
+      | .error (.panic _) => throw "PANIC"
+      | .error (.err _) => return "ERR:serde"
+    | "P" =>
+      match de (parseP U) v with
+      | .ok p => return "OK:" ++ showPurl PkgType.name p
+      | .error (.panic _) => throw "PANIC"
+      | .error (.err _) => return "ERR:serde"
+    | _ => return "NA"
   | "ser" =>
     let s ← unh (← argAt rest 2)
     let go {τ ε : Type} (io : ShapeIO τ ε) : M String := do
@@ -743,6 +784,14 @@ def dispatch (line : String) : M String := do
     | "S" => opParse ioS s
     | "M" => opParse ioM s
     | "P" => opParse ioP s
+    | _ => return "NA"
+  | "fmtlim" :: sh :: cap :: s :: _ =>
+    let s ← unh s
+    let cap := cap.toNat?.getD 0
+    match sh with
+    | "S" => opFmtlim ioS cap s
+    | "M" => opFmtlim ioM cap s
+    | "P" => opFmtlim ioP cap s
     | _ => return "NA"
   | "build" :: sh :: ty :: name :: script :: _ =>
     match sh with
